@@ -228,9 +228,16 @@ def _attribute_values(link: Link, name: str) -> list:
     Unlike ``getattr(link, name)``, this is a list no matter whether
     link_header regards the attribute as single-valued (``rel``, ``title``,
     ...; those would come back as a plain string), and it only ever looks at
-    the link's attributes, not at Python attributes of the Link object."""
+    the link's attributes, not at Python attributes of the Link object.
+
+    Attributes that are present without a value (like ``obs``) have nothing a
+    filter could be compared to, and are left out."""
     name = name.lower()
-    return [value for key, value in link.attr_pairs if key.lower() == name]
+    return [
+        value
+        for key, value in link.attr_pairs
+        if key.lower() == name and value is not None
+    ]
 
 
 class WKCResource(Resource):
